@@ -128,6 +128,11 @@ bool Instance::parse_script(const std::vector<uint8_t>& script_data) {
 }
 
 bool Instance::parse_pretend_valid_expr(const char* expr) {
+    // sig:pubkey[,sig:pubkey[,...]] -- at least one pair, no empty element at the end either
+    if (!*expr || expr[strlen(expr) - 1] == ',') {
+        fprintf(stderr, "parse error (%s) in the list of signature:pubkey pairs\n", *expr ? "trailing comma" : "empty list");
+        return false;
+    }
     const char* p = expr;
     const char* c = p;
     valtype sig;
